@@ -86,21 +86,30 @@ def lake_build(targets):
     return rc == 0, out
 
 
+def prop_modules(prop):
+    """FunProps/<prop>.lean plus any FunProps/<prop><Suffix>.lean (e.g. C16Stack)"""
+    import glob
+    files = sorted(glob.glob(os.path.join(LEAN, "FunProps", prop + "*.lean")))
+    return [os.path.basename(f)[:-5] for f in files]
+
+
 def theorem_names(prop):
-    """property theorems = every `theorem` in FunProps/<prop>.lean, qualified by its namespace"""
-    path = os.path.join(LEAN, "FunProps", prop + ".lean")
-    text = strip_comments(open(path).read())
-    names, ns = [], []
-    for line in text.splitlines():
-        m = re.match(r"\s*namespace\s+(\S+)", line)
-        if m:
-            ns.append(m.group(1)); continue
-        m = re.match(r"\s*end\s+(\S+)", line)
-        if m and ns and ns[-1] == m.group(1):
-            ns.pop(); continue
-        m = re.match(r"\s*(?:private\s+|protected\s+)?theorem\s+(\S+)", line)
-        if m:
-            names.append(".".join(ns + [m.group(1)]))
+    """property theorems = every `theorem` in FunProps/<prop>*.lean, qualified by its namespace"""
+    names = []
+    for mod in prop_modules(prop):
+        path = os.path.join(LEAN, "FunProps", mod + ".lean")
+        text = strip_comments(open(path).read())
+        ns = []
+        for line in text.splitlines():
+            m = re.match(r"\s*namespace\s+(\S+)", line)
+            if m:
+                ns.append(m.group(1)); continue
+            m = re.match(r"\s*end\s+(\S+)", line)
+            if m and ns and ns[-1] == m.group(1):
+                ns.pop(); continue
+            m = re.match(r"\s*(?:private\s+|protected\s+)?theorem\s+(\S+)", line)
+            if m:
+                names.append(".".join(ns + [m.group(1)]))
     return names
 
 
@@ -109,7 +118,8 @@ def audit_axioms(prop, names):
     os.makedirs(os.path.join(WORK, prop), exist_ok=True)
     f = os.path.join(WORK, prop, "Audit.lean")
     with open(f, "w") as fh:
-        fh.write(f"import FunProps.{prop}\n")
+        for mod in prop_modules(prop):
+            fh.write(f"import FunProps.{mod}\n")
         for n in names:
             fh.write(f"#print axioms {n}\n")
     with Lock("lake"):
@@ -129,7 +139,7 @@ def audit_axioms(prop, names):
 
 def leanchecker(prop):
     with Lock("lake"):
-        rc, out = sh(["lake", "env", "leanchecker", f"FunProps.{prop}"], cwd=LEAN, timeout=3000)
+        rc, out = sh(["lake", "env", "leanchecker"] + [f"FunProps.{m}" for m in prop_modules(prop)], cwd=LEAN, timeout=3000)
     return rc == 0, out
 
 
